@@ -263,6 +263,19 @@ pub enum PData {
     Bytes(Vec<u8>),
 }
 
+/// head of a definite-length CBOR byte string
+pub fn cbor_bytes_head(len: usize, out: &mut Vec<u8>) {
+    match len {
+        0..=23 => out.push(0x40 | len as u8),
+        24..=255 => out.extend([0x58, len as u8]),
+        256..=65535 => out.extend([0x59, (len >> 8) as u8, len as u8]),
+        _ => {
+            out.push(0x5a);
+            out.extend((len as u32).to_be_bytes());
+        }
+    }
+}
+
 impl PData {
     /// same structure, same constructors and byte strings: at most integer leaves differ
     pub fn differs_in_integers_only(&self, other: &PData) -> bool {
